@@ -30,7 +30,7 @@ for d in sorted(os.listdir(S)):
                        "ran": [r["check"] for r in det["results"]], "detected_by": [r["check"] for r in det["results"] if r["exit"] == 1],
                        "undecided_in": [r["check"] for r in det["results"] if r["exit"] == 2],
                        "first_violation": {r["check"]: r["first"] for r in det["results"] if r["exit"] == 1}},
-        "round": (int(d.split("-")[1]) + 1) // 2,
+        "round": min((int(d.split("-")[1]) + 1) // 2, 7),
         "rebased": os.path.exists(os.path.join(p, "patch.orig.diff")),
     }
     json.dump(meta, open(os.path.join(p, "meta.json"), "w"), indent=1)
